@@ -51,7 +51,9 @@ Shapes == <<
 IgnSets == <<
   (* 1 *) << Rgx(RxPlus(Cls(<<sp>>))) >>,
   (* 2 *) << Rgx(RxPlus(Cls(<<sp>>))), Str(<<dash>>) >>,
-  (* 3 *) << Rgx(RxPlus(Cls(<<sp>>))), Left(Right(Str(<<lpar>>), Rgx(RxStarG(Cls(<<a, b>>)))), Str(<<rpar>>)) >>
+  (* 3 *) << Rgx(RxPlus(Cls(<<sp>>))), Left(Right(Str(<<lpar>>), Rgx(RxStarG(Cls(<<a, b>>)))), Str(<<rpar>>)) >>,
+  (* 4: overlapping patterns - their ORDER matters: "--ab" is one comment, not two dashes and a word *)
+          << Rgx(RxCat2(RxCat2(Cls(<<dash>>), Cls(<<dash>>)), RxStarG(Cls(<<a, b>>)))), Str(<<dash>>), Rgx(RxPlus(Cls(<<sp>>))) >>
 >>
 
 Rules(s) ==
@@ -65,11 +67,12 @@ Rules(s) ==
 
 Grammar(s, i) == [rules |-> Rules(s), ign |-> IgnSets[i], start |-> "start"]
 
-Alpha(i) == CASE i = 1 -> <<a, b, sp>> [] i = 2 -> <<a, b, sp, dash>> [] i = 3 -> <<a, sp, lpar, rpar>>
+Alpha(i) == CASE i = 1 -> <<a, b, sp>> [] i = 2 -> <<a, b, sp, dash>> [] i = 3 -> <<a, sp, lpar, rpar>> [] i = 4 -> <<a, b, dash>>
 N == IF Tier = "quick" THEN 4 ELSE 5
 Texts(s, i) == TextSeqUpTo(Alpha(i), N)
      \o << <<sp, a, sp, sp, b, sp>>, <<a, sp, sp, sp, a>>, <<sp, sp, a, b, sp, a, sp, sp>>, <<bigA, sp, a>>,
            <<a, sp, comma, sp, a, sp, comma, sp>>, <<a, comma, sp, sp, a>>, <<sp, a, sp, comma, a, comma>> >>
+     \o (IF i = 4 THEN << <<a, dash, dash, a, b, sp, b>>, <<dash, dash, a, sp, a, dash, b>>, <<a, dash, dash, dash, b>> >> ELSE <<>>)
      \o (IF i = 2 THEN << <<a, dash, sp, dash, b>>, <<dash, dash, a, sp, dash>> >> ELSE <<>>)
      \o (IF i = 3 THEN << <<a, lpar, a, b, rpar, sp, a>>, <<lpar, rpar, a, lpar, sp, rpar, a>>, <<a, lpar, a, sp, rpar, a>>,
                           <<a, sp, lpar, lpar, rpar, a>> >> ELSE <<>>)
@@ -86,7 +89,7 @@ Init == /\ s \in 1..(Len(Shapes) + 1) /\ ig \in 1..Len(IgnSets)
         /\ done = FALSE
 
 Cfg == [prop |-> "C04", ign_first |-> decl[1],
-        ign_names |-> IF decl[2] THEN <<"Blank", "Junk">> ELSE <<"", "">>,
+        ign_names |-> IF decl[2] THEN <<"Blank", "Junk", "More">> ELSE <<"", "", "">>,
         style |-> [ignore_kw |-> decl[3]]]
 
 Step == /\ ~done
